@@ -860,6 +860,56 @@ def pinned_tallies(v):
     return [[int(x) for x in re.findall(r'\d+', g)] for g in m.groups()]
 
 
+def retyped_elements(run, versions):
+    """A field that is given another complex datatype (a local agreement: Field(name, datatype=T) or f.datatype = T under
+    TOLERANT) addresses the components of T by HL7 name, by long name and in any case, for reads, writes and deletes."""
+    from hl7apy.core import Field
+    from hl7apy.exceptions import HL7apyException
+    n = 0
+    for v in versions:
+        lib = hl7apy.load_library(v)
+        structs = getattr(lib, 'DATATYPES_STRUCTS', {})
+        fields = [fn for fn in sorted(lib.FIELDS) if lib.FIELDS[fn][0] == 'sequence'][:40:13]
+        for fname in fields:
+            old = lib.FIELDS[fname][2]
+            for target in [t for t in ('CE', 'CX', 'XPN', 'HD') if t in structs and t != old][:2]:
+                rows = structs[target]
+                longs = [long_of(r[1]) for r in rows]
+                for how in ('ctor', 'setter'):
+                    def make():
+                        if how == 'ctor':
+                            return Field(fname, datatype=target, version=v, validation_level=2)
+                        f = Field(fname, version=v, validation_level=2)
+                        f.datatype = target
+                        return f
+                    for j, row in enumerate(rows):
+                        ln = longs[j]
+                        if not ln or longs.count(ln) != 1 or ln.lower() in dir(Field) or ln.lower() in Field.cls_attrs:
+                            continue
+                        n += 1
+                        where = dict(parent_kind='field', parent=fname, version=v, retyped_to=target, how=how, child=row[0],
+                                     spelling=ln.lower())
+                        try:
+                            f = make()
+                            setattr(f, ln.lower(), 'x')                       # write by long name
+                            by_name = f.children.get(row[0])
+                            if len(by_name) != 1 or by_name[0].to_er7() != 'x' or getattr(f, ln.upper())[0] is not by_name[0]:
+                                run.fail('alias-differs', 'a component of a retyped field reached by its long name is not the child '
+                                         'its HL7 name designates', op='write/read', **where)
+                                continue
+                            delattr(f, ln.lower())                            # delete by long name
+                            if len(f.children.get(row[0])) != 0:
+                                run.fail('alias-differs', 'deleting a component of a retyped field by its long name does not remove '
+                                         'the child its HL7 name designates', op='delete', **where)
+                        except HL7apyException as ex:
+                            run.fail('alias-raises', 'a long name of the datatype a field was retyped to does not resolve',
+                                     exception=type(ex).__name__, **where)
+                        except Exception as ex:  # noqa
+                            run.fail('alias-raises', 'addressing a component of a retyped field raised', exception=repr(ex)[:200],
+                                     **where)
+    return n
+
+
 def main(argv=None):
     run = Run('C14', argv)
     if run.replay:
@@ -915,6 +965,7 @@ def main(argv=None):
     for v in VERSIONS:
         for k, x in byv[v]['counts'].items():
             total[k] = total.get(k, 0) + x
+    total['retyped_long_names'] = retyped_elements(run, VERSIONS)
     run.log('implementation sweep: %s; %d oracle failures; cpu %.0fs' % (
         total, len(run.failures), sum(byv[v]['seconds'] for v in VERSIONS)))
     syn = synthetic_sweep(run.seed)
